@@ -1,5 +1,5 @@
 (* C03 model runner: one case per line on stdin, one result per line on stdout.
-   <id> FR <n> <limit> <start> <lister> <nf> <filters> <nodes> [#replay]   findRoots (lister: 1 = ReferrerLister source)
+   <id> FR <n> <limit> <start> <lister> <nf> <filters> <nodes> [#replay]   findRoots (lister: 1 = ReferrerLister source, c = caller-supplied FindPredecessors: the table is its output)
    <id> FP <n> <x> <lister> <nf> <filters> <nodes> [#replay]      opts.FindPredecessors(x)
    <id> FE <n> <limit> <start> <lister> <k> <nf> <filters> <nodes> [#replay]   findRoots, k-th source operation fails
    <id> AT <kind> <hexmat> <hexmcfg>                              fetchArtifactType
@@ -85,7 +85,12 @@ let () =
       let (fs, rest) = parse_filters (int_of_string nf) rest in
       let src = source_of (parse_nodes n rest) (lister = "1") in
       let node = { d_id = nat_of_int (int_of_string start); d_at = []; d_ann = None } in
-      (match find_roots (fuel_for src (nat_of_int n)) src fs (z_of_int (int_of_string limit)) node with
+      let res =
+        if lister = "c" then
+          (* the served table is what the caller's own FindPredecessors returns *)
+          find_roots_fp (fuel_for src (nat_of_int n)) (find_preds_custom src src.s_preds fs) (z_of_int (int_of_string limit)) node
+        else find_roots (fuel_for src (nat_of_int n)) src fs (z_of_int (int_of_string limit)) node in
+      (match res with
        | None -> Printf.printf "%s FUEL\n" id
        | Some roots ->
          let ids = List.sort_uniq compare (List.map (fun d -> int_of_nat d.d_id) roots) in
@@ -109,7 +114,8 @@ let () =
       let n = int_of_string n in
       let (fs, rest) = parse_filters (int_of_string nf) rest in
       let src = source_of (parse_nodes n rest) (lister = "1") in
-      let ps = find_preds src fs (nat_of_int (int_of_string x)) in
+      let ps = if lister = "c" then find_preds_custom src src.s_preds fs (nat_of_int (int_of_string x))
+               else find_preds src fs (nat_of_int (int_of_string x)) in
       Printf.printf "%s P%s\n" id
         (String.concat "" (List.map (fun d ->
            Printf.sprintf " %d:%s:%s" (int_of_nat d.d_id) (hex_of_str d.d_at) (show_ann d.d_ann)) ps))
